@@ -250,16 +250,25 @@ theorem get_measurements_spec {β κ : Type} (same : κ → κ → Bool) (cast32
 
 /-! ## group lookup -/
 
-/-- **`get_annotation_groups` returns exactly the groups matching every given criterion, in order.** -/
+/-- **`get_annotation_groups` returns exactly the groups matching every given criterion, in order**
+(`Gen.groupFilterDecision` is the loop body as the source has it now). -/
 theorem group_lookup_spec (gs : List GroupInfo) (f : Filter) :
-    getGroups gs f = gs.filter (fun g => matchesSpec g f) ∧
-    (∀ g, g ∈ getGroups gs f ↔ (g ∈ gs ∧ matchesSpec g f = true)) ∧
-    List.Sublist (getGroups gs f) gs := by
-  rw [getGroups_spec]
-  exact ⟨rfl, fun g => by simp [List.mem_filter], List.filter_sublist⟩
+    getGroups gs f = .ok (gs.filter (fun g => matchesSpec g f)) ∧
+    (∀ g, g ∈ gs.filter (fun g => matchesSpec g f) ↔ (g ∈ gs ∧ matchesSpec g f = true)) ∧
+    List.Sublist (gs.filter (fun g => matchesSpec g f)) gs :=
+  ⟨getGroups_spec gs f, fun g => by simp [List.mem_filter], List.filter_sublist⟩
+
+/-- each criterion is compared with the attribute of the item it is named after -/
+theorem group_lookup_compares : filterCompares =
+    [("annotated_property_category", "item.annotated_property_category"),
+     ("annotated_property_type", "item.annotated_property_type"),
+     ("label", "item.AnnotationGroupLabel"), ("graphic_type", "item.graphic_type"),
+     ("algorithm_type", "item.algorithm_type"), ("algorithm_name", "algorithm_identification.name"),
+     ("algorithm_version", "algorithm_identification.version"),
+     ("algorithm_family", "algorithm_identification.family")] := by decide
 
 /-- no criterion: all groups -/
-theorem group_lookup_no_filter (gs : List GroupInfo) : getGroups gs {} = gs := by
+theorem group_lookup_no_filter (gs : List GroupInfo) : getGroups gs {} = .ok gs := by
   rw [getGroups_spec]
   have : ∀ g, matchesSpec g {} = true := by
     intro g
